@@ -38,7 +38,7 @@ def Stmt.ofSexp : Sexp → Option Stmt
       | .list [n, e] => do pure (← str? n, ← Expr.ofSexp e)
       | _ => none)
     pure (.select { projections := projs, wildcard := flag w, filter := ← optExpr f, limit := ← optNat l, distinct := flag d })
-  | .list [.atom "agg", .list (.atom "items" :: is), f, g, h, .list (.atom "haggs" :: has), .list (.atom "hkeys" :: hks), l, d] => do
+  | .list [.atom "agg", .list (.atom "items" :: is), f, g, h, .list (.atom "haggs" :: has), .list (.atom "hkeys" :: hks), .list (.atom "hvisit" :: hvs), l, d] => do
     let items ← is.mapM (fun (p : Sexp) => match p with
       | .list [n, k, t] => do pure ({ name := ← str? n, kind := ← AggKind.ofSexp k, transform := ← optExpr t } : AggItem)
       | _ => none)
@@ -52,8 +52,12 @@ def Stmt.ofSexp : Sexp → Option Stmt
       | .list [i, k] => do pure (← i.nat?, ← AggKind.ofSexp k)
       | _ => none)
     let hkeys ← hks.mapM str?
+    let hvisit ← hvs.mapM (fun (p : Sexp) => match p with
+      | .list [.atom "key", c] => (str? c).map HavingRef.key
+      | .list [.atom "agg", i, k] => do pure (HavingRef.agg (← i.nat?) (← AggKind.ofSexp k))
+      | _ => none)
     pure (.aggregate { items := items, filter := ← optExpr f, groupBy := groupBy, having := ← optExpr h,
-                       havingAggs := haggs, havingKeys := hkeys, limit := ← optNat l, distinct := flag d })
+                       havingAggs := haggs, havingKeys := hkeys, havingVisit := hvisit, limit := ← optNat l, distinct := flag d })
   | _ => none
 
 def TableInfo.ofSexp : Sexp → Option TableInfo
